@@ -1376,12 +1376,29 @@ impl Runner for ServiceRunner {
                 out.push(format!("!OP srm {} {}", x, hex::encode(id)));
                 self.finish(x, "srm", None, so, Some(format!("removed={}", r)), out, stats);
             }
-            ["sunverifiable", _, rec] => {
+            // `sunverifiable X REC [PEER]`: the handler reports that the party which proved to be PEER
+            // (default: the record's own id) presented the record REC, which does not verify
+            ["sunverifiable", _, rec, rest @ ..] => {
                 let Some(enr) = self.rec(rec) else { return noop(out) };
+                let proven: [u8; 32] = match rest.first().and_then(|p| parse_peer(p)) {
+                    Some(id) => id,
+                    None => enr.node_id().raw(),
+                };
                 let a: SocketAddr = "10.9.9.8:9998".parse().unwrap();
-                let _ = self.insts[&x].hout.try_send(HandlerOut::UnverifiableEnr { enr: enr.clone(), socket: a, node_id: enr.node_id() });
+                let before: Vec<[u8; 32]> = self.insts[&x].discv5.table_entries_id().iter().map(|i| i.raw()).collect();
+                let _ = self.insts[&x].hout.try_send(HandlerOut::UnverifiableEnr { enr: enr.clone(), socket: a, node_id: NodeId::new(&proven) });
                 let so = self.observe(x, false, false);
-                out.push(format!("!OP sunverifiable {} {}", x, hex::encode(enr.node_id().raw())));
+                // C01 (service half): only the entry of the id that was actually proven may be removed
+                let after: Vec<[u8; 32]> = self.insts[&x].discv5.table_entries_id().iter().map(|i| i.raw()).collect();
+                for gone in before.iter().filter(|i| !after.contains(i)) {
+                    if *gone != proven {
+                        out.push(format!("!MON C01 table-entry-removed-for-unproven-id removed={} proven={}", hex::encode(&gone[..4]), hex::encode(&proven[..4])));
+                    }
+                }
+                if proven != enr.node_id().raw() {
+                    stats.bump("s.unverifiable-foreign-record");
+                }
+                out.push(format!("!OP sunverifiable {} {}", x, hex::encode(proven)));
                 self.finish(x, "sunverifiable", None, so, None, out, stats);
             }
             ["sreq", _, peer, addr, rid, kind, args @ ..] => {
@@ -1936,7 +1953,13 @@ fn gen_c12(rng: &mut Rng, ops: &mut Vec<String>, stats: &mut Stats) {
         } else if c < 77 {
             ops.push(format!("sfail A {}", rng.pick(&["#p", "#e", "#l", "#q"])));
         } else if c < 80 {
-            ops.push(format!("sunverifiable A {}", peers[pi].spec()));
+            if rng.chance(1, 2) {
+                // the record of some (possibly stored) node Z presented by a party that proved to be M
+                let other = &peers[rng.below(peers.len() as u64) as usize];
+                ops.push(format!("sunverifiable A {} k{}", other.spec(), peers[pi].seed));
+            } else {
+                ops.push(format!("sunverifiable A {}", peers[pi].spec()));
+            }
         } else if c < 83 {
             ops.push(format!("srm A k{}", peers[pi].seed));
         } else if c < 90 {
@@ -2264,6 +2287,8 @@ pub fn gen_case(rng: &mut Rng, tier: &str, profile: &str, stats: &mut Stats) -> 
     let mut ops = Vec::new();
     let p = match profile {
         "C11" | "C12" | "C14" | "C17" => profile,
+        // C01 (service half): routing-table effects of handler reports -> the table-policy scenarios
+        "C01" => "C12",
         _ => *rng.pick(&["C11", "C12", "C14", "C17"]),
     };
     match p {
